@@ -124,7 +124,7 @@ def decision_facts(c):
             lower[g] = b
 
     for d in c.path.decisions:
-        if d.rel != "lt":
+        if d.rel != "lt" or d.is_const == 2:      # (assumed answers of the auto-valid tracer are not facts)
             continue
         raw = alg.P(d.b) - alg.P(d.a)            # fact: raw > 0 (val) or raw <= 0 (not val)
         for p in [raw] + list(alg._alt_forms(alg.nf(raw))) + _unit_trades(c, alg.nf(raw)):
@@ -642,3 +642,65 @@ class with_taylor:
             fn()
         finally:
             c.taylor_tau = None
+
+
+def _z3_proves_assumed(c, p, d):
+    """z3: precondition + the path's NON-assumed decisions + negated claim is unsatisfiable"""
+    try:
+        from engine import smt
+        z = smt.Z3Ctx(c.alg, 3000)
+        cs = []
+        for dd in c.path.decisions:
+            if dd.is_const == 2:
+                continue
+            e = z.expr(c.alg.nf(c.alg.P(dd.b) - c.alg.P(dd.a)))
+            if dd.rel == "lt":
+                cs.append(e > 0 if dd.val else e <= 0)
+            else:
+                cs.append(e == 0 if dd.val else e != 0)
+        e = z.expr(p)
+        neg = (e <= 0) if d.val else (e > 0)
+        gens = z.gens_of([p])
+        base = z.base_constraints(c.extra_facts_z3(z), without_inverses=True)
+        r, model, dt = z.check(base + cs + [neg])
+        return r == "unsat"
+    except Exception:
+        return False
+
+
+def prove_assumed(c, p, d):
+    """the auto-valid tracer answered a validity test `|x - 1| <> eps` "within the threshold"; p = nf(b - a) is its margin
+    (the answer claims p > 0 if d.val else p <= 0).  Proved when p = c0 + r with sign(c0) as claimed and |r| < |c0| on
+    the path (interval bound, same machinery as the TAYLOR obligations; the assumed decisions themselves are never used as facts)."""
+    if d.rel != "lt":
+        return False
+    alg = c.alg
+    if _z3_proves_assumed(c, p, d):
+        return True
+    try:
+        c0 = _const_term(p)
+        if c0 == 0 or (c0 > 0) != bool(d.val):
+            return False
+        r = p - alg.const(c0)
+        old_tau = getattr(c, "taylor_tau", None)
+        c.taylor_tau = old_tau or 1
+        try:
+            for scale in SCALES:
+                bounds = gen_bounds(c, scale)
+                q = expand_trig(c, r, bounds)
+                bounds = gen_bounds(c, scale)
+                b = poly_bound(alg, q, bounds)
+                if b is None or b >= abs(c0):
+                    q = near_unit_shifts(c, q, bounds)
+                    b = poly_bound(alg, q, bounds)
+                    if b is None or b >= abs(c0):
+                        return False
+        finally:
+            c.taylor_tau = old_tau
+        return True
+    except EngineError:
+        return False
+
+
+from engine import vc as _vc
+_vc.ASSUMPTION_PROVER = prove_assumed
